@@ -1,0 +1,24 @@
+//go:build verif
+
+package webtransport
+
+import (
+	"io"
+
+	"github.com/karagenc/socket.io-go/engine.io/parser"
+)
+
+// Exported wrappers for the verification harness (build tag `verif`).
+
+// VerifSend writes one frame (send).
+func VerifSend(w io.Writer, packet *parser.Packet) error { return send(w, packet) }
+
+// VerifNextPacket reads one frame (nextPacket). With limit >= 0 the reader is wrapped
+// the way the server transport wraps its stream (newLimitedReader); limit < 0 reads
+// from r directly, like the client transport.
+func VerifNextPacket(r io.Reader, limit int64) (*parser.Packet, error) {
+	if limit >= 0 {
+		return nextPacket(newLimitedReader(r, limit))
+	}
+	return nextPacket(r)
+}
